@@ -6,6 +6,8 @@
 -/
 import KskmProofs.Lemmas.C11Duration
 import KskmProofs.Lemmas.C11Datetime
+import KskmProofs.Lemmas.C11Extract
+import KskmProofs.Lemmas.C11Reader
 namespace Kskm.C11
 
 /-! ## Durations -/
@@ -51,9 +53,6 @@ theorem civil_roundtrip :
     (∀ c : Civil, c.valid = true → civilOfDays (daysOfCivil c) = c) :=
   ⟨fun z => ⟨daysOfCivil_civilOfDays z, civilOfDays_valid z⟩, civilOfDays_daysOfCivil⟩
 
-/-- the civil year of an instant (µs since the epoch) -/
-def yearOf (t : Int) : Int := (civilOfDays (epochSeconds t / 86400)).year
-
 /-- Every whole-second instant of the years 1000 … 9999 is read back exactly from the text the writer
     prints for it. -/
 theorem datetime_roundtrip (t : Int) (hs : t % 1000000 = 0) (hy1 : 1000 ≤ yearOf t) (hy2 : yearOf t ≤ 9999) :
@@ -73,5 +72,200 @@ theorem datetime_year_below_1000_counterexample :
 
 /-- microseconds are dropped by the writer -/
 example : parseDatetime (formatDatetime 1500000000999999) = .ok 1500000000000000 := by decide
+
+
+/-! ## `_indent` -/
+
+/-- `_indent` of a text given by its (single-line) lines: the EMPTY lines are dropped — a
+    whitespace-only line is a line like any other —, every remaining line gets four blanks, and the
+    result is `lstrip()`ped. -/
+theorem indent_lines_spec (ls : List (List Char)) (h : ∀ l ∈ ls, '\n' ∉ l) :
+    indent (joinNl ls) = lstrip (joinNl ((ls.filter (fun l => !l.isEmpty)).map (fun l => sp4 ++ l))) :=
+  indent_joinNl ls h
+
+/-- a whitespace-only line survives `_indent` (it is only "not empty" that counts) -/
+example : indent "<a>\n  \n\n<b/>".toList = "<a>\n      \n    <b/>".toList := by decide
+
+/-- The layout lemma behind the writer: `_indent` of a concatenation of element templates, put back
+    behind the four blanks of the enclosing template line, is the elements' lines indented by four
+    blanks each, joined by newlines — multi-line FIELD TEXT would be re-indented too, which is why the
+    domain asks for single-line text (F6). -/
+theorem indent_templates {α} (f : α → XTree) (l : List α) (hne : l ≠ []) (hs : ∀ x ∈ l, (f x).safe) :
+    sp4 ++ indent ((l.map (fun x => block (renderLines (f x)))).flatten)
+      = joinNl ((renderLinesList (l.map f)).map ind) :=
+  indent_elements f l hne hs
+
+/-- F6 as a fact about `_indent`: a two-line text does not come back unchanged -/
+example : indent "AAAA\nBBBB".toList = "AAAA\n    BBBB".toList := by decide
+
+/-! ## The writer -/
+
+/-- On the writer's domain `skr_to_xml` succeeds and its text is the rendering of the element tree
+    `treeOf r` (XML declaration, one line per tag / leaf element, four blanks per nesting level, final
+    newline). -/
+theorem skrToXml_is_render (r : Response) (h : WriterDomain r) :
+    skrToXml r = .ok (String.ofList (renderDoc (treeOf r))) := by
+  simp [skrToXml, skrToXmlChars_of_domain r h, bind, Except.bind, pure, Except.pure]
+
+/-- outside the domain the writer refuses what output.py refuses -/
+theorem skrToXml_refusals (r : Response) :
+    (r.timestamp.isSome = true → skrToXml r = .error (.error .notImplemented)) ∧
+    (∀ a : AlgPolicy, a.kind ≠ .rsa → algXml a = .error (.error .notImplemented)) := by
+  refine ⟨fun h => ?_, fun a ha => ?_⟩
+  rotate_left
+  · unfold algXml
+    cases hk : a.kind <;> first | exact absurd hk ha | (cases a.exponent <;> rfl)
+  simp [skrToXml, skrToXmlChars, h, bind, Except.bind, err]
+
+/-- the text ends with the closing tag of the root element and the final newline -/
+theorem skrToXml_ends_with (r : Response) (h : WriterDomain r) :
+    ∃ body, skrToXml r = .ok (String.ofList (body ++ "</KSR>\n".toList)) := by
+  refine ⟨docBody r, ?_⟩
+  rw [skrToXml_is_render r h, renderDoc_treeOf]
+  have : "</KSR>\n".toList = endPat ++ ['\n'] := by decide
+  rw [this, List.append_assoc]
+
+/-- `</KSR>` occurs exactly once in the text: wherever it occurs, only the final newline follows -/
+theorem skrToXml_end_tag_once (r : Response) (h : WriterDomain r) (text pre post : List Char)
+    (ht : skrToXml r = .ok (String.ofList text)) (hocc : text = pre ++ "</KSR>".toList ++ post) :
+    post = ['\n'] := by
+  rw [skrToXml_is_render r h] at ht
+  have e : text = renderDoc (treeOf r) := by
+    have := Except.ok.inj ht
+    exact (String.ofList_injective this).symm
+  have hp : "</KSR>".toList = endPat := by decide
+  rw [e, renderDoc_treeOf, hp] at hocc
+  exact (end_occurs_once (docBody r) (docBody_no_end r h) pre post hocc).2
+
+/-- **C11, truncation clause, text level.**  Every proper prefix of an emitted file other than
+    "everything but the final newline" does not contain the closing tag `</KSR>` of the root element. -/
+theorem C11_prefix (r : Response) (h : WriterDomain r) (text p : List Char)
+    (ht : skrToXml r = .ok (String.ofList text))
+    (hp : p <+: text) (hne : p ≠ text) (hne2 : p ≠ text.dropLast) :
+    ¬ "</KSR>".toList <:+: p := by
+  rw [skrToXml_is_render r h] at ht
+  have e : text = renderDoc (treeOf r) := by
+    have := Except.ok.inj ht
+    exact (String.ofList_injective this).symm
+  have hpat : "</KSR>".toList = endPat := by decide
+  rw [hpat]
+  rw [e, renderDoc_treeOf] at hp hne hne2
+  exact prefix_lacks_end (docBody r) (docBody_no_end r h) p hp hne hne2
+
+/-- The repository's reader (package D's model of `_find_end_of_element`) raises when the end tag of
+    the element it is reading does not occur in the text — the reader-side half of the truncation
+    clause, here for the root element and a prefix as in `C11_prefix`. -/
+theorem C11_prefix_reader_raises (r : Response) (h : WriterDomain r) (text p : List Char)
+    (ht : skrToXml r = .ok (String.ofList text))
+    (hp : p <+: text) (hne : p ≠ text) (hne2 : p ≠ text.dropLast) (start : Nat) (sub : List Char)
+    (hsub : sub <:+: p) :
+    Kskm.Xml.findEndOfElement sub start "KSR".toList = none := by
+  apply Kskm.Xml.findEndOfElement_none
+  intro hocc
+  have hpat : Kskm.Xml.endTag "KSR".toList = "</KSR>".toList := by decide
+  rw [hpat] at hocc
+  exact C11_prefix r h text p ht hp hne hne2 (List.IsInfix.trans hocc hsub)
+
+/-- The truncation clause for ANY reader that insists on the root's closing tag and ignores a missing
+    final newline: every proper prefix fails to load or loads to the identical response.  The two
+    hypotheses are what package D's reader theorems (C12 / C13) have to supply for `responseFromXml`;
+    the first is `C11_prefix_reader_raises` above once the reader is known to look for `</KSR>`
+    in a slice of its input. -/
+theorem C11_prefix_any_reader (read : List Char → Res Response)
+    (insists : ∀ s, ¬ "</KSR>".toList <:+: s → ∀ x, read s ≠ .ok x)
+    (r : Response) (h : WriterDomain r) (text : List Char) (ht : skrToXml r = .ok (String.ofList text))
+    (newline : read text.dropLast = read text) (p : List Char) (hp : p <+: text) (hne : p ≠ text) :
+    (∀ x, read p ≠ .ok x) ∨ read p = read text := by
+  by_cases h2 : p = text.dropLast
+  · right; rw [h2, newline]
+  · left; exact insists p (C11_prefix r h text p ht hp hne h2)
+
+/-! ## Schema -/
+
+/-- **C11, schema clause.**  The tree the writer renders conforms to the Response side of
+    schema/ksr.rnc (`Rnc.start`: element names, order, cardinalities, attribute sets, the integer
+    datatypes with their facets), for every interpretation of `xsd:dateTime` / `xsd:duration` /
+    `xsd:base64Binary` that accepts what the writer's two codecs print and canonical base64. -/
+theorem C11_schema (dt : Rnc.Datatypes) (acc : Rnc.Accepts dt) (r : Response) (h : WriterDomain r) :
+    Rnc.start dt (treeOf r) :=
+  Rnc.treeOf_conforms dt acc r h
+
+/-! ## Round trip -/
+
+/-
+  FULL STATEMENT (not proved here):
+
+    theorem C11_roundtrip (r : Response) (h : WriterDomain r) (h2 : 2 ≤ r.bundles.length) :
+        ∃ text r', skrToXml r = .ok text ∧ responseFromXml text = .ok r' ∧ r' ≈ r
+      where r' ≈ r: equal up to the order of the set-valued fields (keys, signatures, algorithms)
+
+  `responseFromXml` is package D's model of the repository's reader (lean/Kskm/XmlGlue.lean:
+  regular-expression tag matcher, `_find_end_of_element`, `_store_element`, the dict → data-class glue).
+  What is proved instead, `C11_roundtrip_partial`, is the writer's half and the codec half:
+    (1) the text is `renderDoc (treeOf r)` (`skrToXml_is_render`);
+    (2) reading the DATA off that tree with the reader's own field codecs (`pyInt`, `parseDuration`,
+        `parseDatetime`) gives `r` back exactly, keys in ascending key-tag order (`extractResponse`).
+  MISSING for the full statement: that the repository's reader applied to `renderDoc t` yields the
+  standard reading of `t` for the plain trees the writer produces, i.e. package D's `C12_reader`
+  (`parse (render ℓ t) = dictOf t`) instantiated at the writer's fixed layout, plus `C12_glue`
+  (`responseFromDict (dictOf t) = extractResponse t`), with F12's repair in the glue for one bundle.
+  On the implementation this composition is checked on every generated response by
+  harness/corr_C11.py: clause (b) `response_from_xml(skr_to_xml(r)) == r` and clause (d) ElementTree +
+  independent extractor.
+-/
+
+/-- **C11, round trip — the part that does not need the reader's tag matcher.** -/
+theorem C11_roundtrip_partial (r : Response) (h : WriterDomain r) :
+    skrToXml r = .ok (String.ofList (renderDoc (treeOf r))) ∧
+    extractResponse (treeOf r) = .ok (canonical r) ∧
+    (canonical r).bundles.length = r.bundles.length ∧
+    (∀ (i : Nat) (b b' : Bundle), r.bundles[i]? = some b → (canonical r).bundles[i]? = some b' →
+      b'.keys.Perm b.keys ∧ b'.id = b.id ∧ b'.inception = b.inception ∧ b'.expiration = b.expiration ∧
+        b'.signatures = b.signatures) ∧
+    (canonical r).id = r.id ∧ (canonical r).serial = r.serial ∧ (canonical r).domain = r.domain ∧
+    (canonical r).kskPolicy = r.kskPolicy ∧ (canonical r).zskPolicy = r.zskPolicy := by
+  refine ⟨skrToXml_is_render r h, extract_treeOf r h, by simp [canonical], ?_, rfl, rfl, rfl, rfl, rfl⟩
+  intro i b b' hb hb'
+  simp only [canonical, List.getElem?_map, hb, Option.map_some, Option.some.injEq] at hb'
+  subst hb'
+  exact ⟨List.mergeSort_perm _ _, rfl, rfl, rfl, rfl⟩
+
+/-- single field round trips used above, stated on their own: `int(str(i)) = i` -/
+theorem int_roundtrip (i : Int) (h0 : 0 ≤ i) (hp : printable i = true) : pyInt (pyIntStr i) = .ok (some i) :=
+  pyInt_pyIntStr i h0 hp
+
+/-- one key element / one signature element / one policy block read back exactly -/
+theorem element_roundtrips :
+    (∀ k, keyOk k = true → extractKey (keyTree k) = .ok k) ∧
+    (∀ s, sigOk s = true → extractSig (sigTree s) = .ok s) ∧
+    (∀ name p, policyOk p = true → extractPolicy (policyTree name p) = .ok p) :=
+  ⟨extractKey_keyTree, extractSig_sigTree, extractPolicy_policyTree⟩
+
+/-! ## Non-vacuity: a concrete response of the domain -/
+
+def exKey (id : String) (tag : Int) (flags : Int) : Key :=
+  { keyIdentifier := id, keyTag := tag, ttl := 172800, flags := flags, protocol := 3, algorithm := 8,
+    publicKey := "AwEAAag=" }
+
+def exSig : Signature :=
+  { keyIdentifier := "KSK-1", ttl := 172800, algorithm := 8, labels := 0, originalTtl := 172800,
+    expiration := 1516579200000000, inception := 1514764800000000, keyTag := 20326, signersName := ".",
+    signatureData := "AAAA" }
+
+def exPolicy : SigPolicy :=
+  { publishSafety := 0, retireSafety := 2419200000000, maxSignatureValidity := 1814400000000,
+    minSignatureValidity := 1814400000000, maxValidityOverlap := 3600000000, minValidityOverlap := 61000000,
+    algorithms := [{ kind := .rsa, bits := 2048, algorithm := 8, exponent := some 65537 }] }
+
+def exBundle (id : String) : Bundle :=
+  { id := id, inception := 1514764800000000, expiration := 1516579200000000,
+    keys := [exKey "KSK-1" 20326 257, exKey "ZSK-1" 1024 256, exKey "KSK-0" 19164 385], signatures := [exSig] }
+
+def exResponse : Response :=
+  { id := "4fe9bb10-6f6b", serial := 7, domain := ".", zskPolicy := exPolicy, kskPolicy := exPolicy,
+    bundles := [exBundle "b-1", exBundle "b-2"] }
+
+/-- the example is in the domain (a revoked key, three keys out of tag order, boundary durations) -/
+example : WriterDomain exResponse := by decide +kernel
 
 end Kskm.C11
